@@ -357,7 +357,8 @@ pub struct Tag {
 }
 impl Tag {
     pub fn new(name: &str, from: u16, to: u16, dir: u8) -> Tag {
-        Tag { from, to, dir, repeat: 0, reserved: [0; 6], color: [0; 3], extra: 0, name: Str::new(name) }
+        // the deprecated per-tag colour is non-zero by default: nothing may depend on it
+        Tag { from, to, dir, repeat: 0, reserved: [0; 6], color: [11, 22, 33], extra: 0, name: Str::new(name) }
     }
 }
 
